@@ -1,1 +1,12 @@
-//! verif hook (child module): see /verif/hooks/verif.rs
+//! verif hook (child module of `futures_unordered`): arbitrary representation state
+use super::*;
+
+impl<F> FuturesUnordered<F> {
+    pub fn verif_from_parts(groups: Vec<FuturesUnorderedBounded<F>>, rem: usize, poll_next: usize) -> Self {
+        Self { rem, groups, poll_next }
+    }
+    /// (groups, rem, poll_next)
+    pub fn verif_parts(&mut self) -> (&mut Vec<FuturesUnorderedBounded<F>>, usize, usize) {
+        (&mut self.groups, self.rem, self.poll_next)
+    }
+}
